@@ -78,6 +78,9 @@ impl Marker {
                 MarkEvent::NodeStart { kind, .. } => *kind = LuaSyntaxKind::None,
                 _ => unreachable!(),
             }
+            // the node is dropped: its level must be released as well, otherwise error
+            // recovery (which closes `current_level - level` nodes) over-closes
+            p.decr_mark_level();
             return CompleteMarker {
                 start: 0,
                 kind: LuaSyntaxKind::None,
@@ -97,6 +100,8 @@ impl Marker {
             }
             _ => unreachable!(),
         }
+        // an undone node no longer counts as open for error recovery
+        p.decr_mark_level();
 
         CompleteMarker {
             start: self.position,
